@@ -106,3 +106,50 @@ def default_sharing_problems() -> list[dict]:
                           "history": ["x = main(); x.v[0] = 1", "start_update: add_field(w, uint8[2])", "a = main(); b = main()", "a.w[0] = 7; a.v[1] = 8"],
                           "observed": repr((list(b.w), list(b.v))), "expected": "([0, 0], [0, 0])"})
     return probs
+
+
+def misaligned_embedded(T, seen=None) -> bool:
+    """an ALIGNED structure embedded (directly or as array element) in a PACKED structure at an offset that is not a multiple of its alignment"""
+    from dissect.cstruct.types import BaseArray, Structure
+
+    seen = seen if seen is not None else set()
+    if id(T) in seen or not (isinstance(T, type) and issubclass(T, Structure)):
+        return False
+    seen.add(id(T))
+    for f in T.__fields__:
+        t = f.type
+        while isinstance(t, type) and issubclass(t, BaseArray):
+            t = t.type
+        if isinstance(t, type) and issubclass(t, Structure):
+            if getattr(t, "__align__", False) and not getattr(T, "__align__", False) and f.offset is not None and f.offset % (t.alignment or 1):
+                return True
+            if misaligned_embedded(t, seen):
+                return True
+    return False
+
+
+# mixed alignment modes on one cstruct object: a helper type loaded in one mode, `main` - which embeds it at an odd offset - in the other
+MIXED_INNERS = ["struct N { uint8 n; char s[n]; uint32 v; };", "struct N { uint8 n; uint16 a[n]; uint64 v; uint8 t; };", "struct N { uint8 a; uint32 b; };",
+                "struct N { char s[]; uint16 v; uint8 w; };", "struct N { uint8 n; uint8 d[n]; int24 v; uint16 f : 5; uint16 g : 11; };",
+                "struct N { uint16 a; uint64 b; uint8 c; };"]
+MIXED_MAINS = ["struct main { uint8 tag; N i; uint16 end; };", "struct main { uint8 tag; N i[2]; uint8 end; };", "struct main { uint8 t0; uint16 t1; N i; };"]
+
+
+def mixed_mode_cases(rng: random.Random, static_only: bool = False) -> list[Case]:
+    out = []
+    for inner in MIXED_INNERS:
+        if static_only and ("[n]" in inner or "[]" in inner):
+            continue
+        for mn in MIXED_MAINS:
+            for pa in (True, False):
+                c = Case(inner, endian=rng.choice(["<", ">"]), align=pa, compiled=rng.random() < 0.5, history=[("load_align", mn, not pa)])
+                c._datas = [bytes([rng.randrange(256), rng.randrange(6)]) + bytes(rng.choice([0, 1, 2, 65, 66, 200]) for _ in range(46)) for _ in range(2)] + \
+                           [bytes([7, 0, k, 65, 0, 66]) + rng.randbytes(42) for k in range(4)]
+                c._mixed = True
+                out.append(c)
+    return out
+
+
+def is_mixed(c: Case) -> bool:
+    return any(h[0] == "load_align" and h[2] != c.align for h in c.history)
+
